@@ -74,6 +74,15 @@ func normCmp(x string, op token.Token, y string, xConst, yConst bool) string {
 	} else if !xConst && !yConst && (op == token.EQL || op == token.NEQ) && x > y {
 		x, y = y, x
 	}
+	// a length is never negative: the four spellings of "empty" / "non-empty" are one fact
+	if yConst && !xConst && (strings.HasPrefix(x, "len(") || strings.HasPrefix(x, "cap(")) && strings.HasSuffix(x, ")") && strings.Count(x, "(") == strings.Count(x, ")") {
+		switch {
+		case y == "1" && op == token.LSS, y == "0" && op == token.LEQ:
+			op, y = token.EQL, "0"
+		case y == "1" && op == token.GEQ, y == "0" && op == token.GTR:
+			op, y = token.NEQ, "0"
+		}
+	}
 	return x + " " + op.String() + " " + y
 }
 
@@ -86,7 +95,9 @@ func condFacts(c ssa.Value, pol bool, ifi *ssa.If, out *[]Fact) {
 			if in := helperValue(ex); in != nil {
 				if _, isC := in.(*ssa.Const); !isC {
 					n0 := len(*out)
+					restore := bindHelper(tc)
 					condFacts(in, pol, ifi, out)
+					restore()
 					for i := n0; i < len(*out); i++ {
 						(*out)[i].via = append((*out)[i].via, tc)
 					}
@@ -98,11 +109,74 @@ func condFacts(c ssa.Value, pol bool, ifi *ssa.If, out *[]Fact) {
 	switch v := c.(type) {
 	case *ssa.Call:
 		// predicate helper that is expanded (vinline.go): the fact is the helper's own condition
+		if h := helperCallee(v); h != nil && helperValue(v) == nil && gWorld != nil && isBool(v.Type()) && predDepth < 2 {
+			// predicate helper with several ways out (`return a && b` is split per short-circuit edge; `if … return
+			// false … return true`): what holds on every way out that can yield the outcome under consideration
+			predDepth++
+			restore := bindHelper(v)
+			var common map[string]Fact
+			for _, r := range returnsD(h, 99) {
+				if len(r.Results) != 1 {
+					common = nil
+					break
+				}
+				var fs []Fact
+				if k, isC := r.Results[0].(*ssa.Const); isC && k.Value != nil {
+					if (k.Value.String() == "true") != pol {
+						continue // this way out gives the other outcome
+					}
+					fs = gWorld.factsAtK(r, true)
+				} else {
+					fs = gWorld.factsAtK(r, true)
+					condFacts(r.Results[0], pol, nil, &fs)
+				}
+				m := map[string]Fact{}
+				for _, f := range fs {
+					m[f.Expr] = f
+				}
+				if common == nil {
+					common = m
+				} else {
+					for k := range common {
+						if _, ok := m[k]; !ok {
+							delete(common, k)
+						}
+					}
+				}
+			}
+			restore()
+			predDepth--
+			if len(common) > 0 {
+				var keys []string
+				for k := range common {
+					keys = append(keys, k)
+				}
+				sort.Strings(keys)
+				for _, k := range keys {
+					f := common[k]
+					f.If = ifi
+					f.via = append(f.via, v)
+					f.calls = append(f.calls, v)
+					*out = append(*out, f)
+				}
+				// the call-level fact is kept as well (rules that ask about the helper by name still find it)
+				val := "true"
+				if !pol {
+					val = "false"
+				}
+				cf := Fact{Expr: render(v) + " == " + val, If: ifi}
+				collectDeps(v, &cf)
+				*out = append(*out, cf)
+				return
+			}
+		}
 		if helperCallee(v) != nil {
 			if in := helperValue(v); in != nil {
 				if _, isC := in.(*ssa.Const); !isC {
 					n0 := len(*out)
+					restore := bindHelper(v)
 					condFacts(in, pol, ifi, out)
+					restore()
 					for i := n0; i < len(*out); i++ {
 						(*out)[i].via = append((*out)[i].via, v)
 					}
@@ -199,6 +273,27 @@ func condFacts(c ssa.Value, pol bool, ifi *ssa.If, out *[]Fact) {
 	f := Fact{Expr: s + " == " + val, If: ifi}
 	collectDeps(c, &f)
 	*out = append(*out, f)
+}
+
+// bindHelper: while the condition of a predicate helper is turned into facts for one particular call, the helper's
+// parameters stand for that call's arguments (a helper called twice in one function — inRange(size, …), inRange(t, …) —
+// must not have its facts phrased over its own parameter names or over the other call's arguments)
+var predDepth int
+
+func bindHelper(c *ssa.Call) func() {
+	fn := c.Call.StaticCallee()
+	if fn == nil {
+		return func() {}
+	}
+	old, had := enteredBy[fn]
+	enteredBy[fn] = c
+	return func() {
+		if had {
+			enteredBy[fn] = old
+		} else {
+			delete(enteredBy, fn)
+		}
+	}
 }
 
 func isBool(t types.Type) bool {
@@ -421,7 +516,7 @@ func (w *World) expandSummaries(fs []Fact, depth int) []Fact {
 	for _, f := range fs {
 		for _, c := range f.calls {
 			callee := c.Call.StaticCallee()
-			if callee == nil || !inModule(callee) || callee.Blocks == nil || len(callee.Blocks) > 12 {
+			if callee == nil || !inModule(callee) || callee.Blocks == nil || len(callee.Blocks) > 40 {
 				continue
 			}
 			rc := render(c)
